@@ -95,7 +95,18 @@ def gen(rng, tier):
         if rng.random() < (0.5 if tier == "quick" else 0.3) and len(s) < 9000:
             # the same delivery over a real TLS session (radtlsget / sslreadtimeout); both TLS reader loops use a timeout
             cs.append(Case("tlsstream %s %d %s" % (mode, rng.choice([1, 20, 180]), " ".join(evs)), kind="tls-" + mode, cut=int(bad or stalls > 0), npk=n))
+            if rng.random() < 0.25:
+                # … and with the buffer of the k-th message failing to be allocated: whatever the reader does then, it does not go on
+                # to take octets from inside that message for the next packet
+                for k in range(min(n, 3) + 1):
+                    cs.append(Case("fault %d tlsstream %s %d %s" % (k, mode, rng.choice([1, 20]), " ".join(evs)), kind="tls-fault-" + mode, cut=1, npk=n))
+                    cs.append(Case("fault %d %s" % (k, script_line(mode, 0 if mode == "server" else 5, evs)), kind="tcp-fault-" + mode, cut=1, npk=n))
     return cs
+
+
+def project(op, line):
+    """under an allocation failure the outcome is judged by the monitor, not predicted by the model"""
+    return "" if op == "fault" else line
 
 
 def nontrivial(c):
